@@ -9,7 +9,8 @@ import numpy as np
 from hypothesis import strategies as st
 
 from vf.core import Cell, Ctx, Violation
-from vf.refmodel import HEX_SIDES, apply, apply_dir, hex_corner_jacobians, hex_mirrorings, hex_rotations, m_rotate, rodrigues
+from vf.refmodel import (HEX_SIDES, apply, apply_dir, hex_corner_jacobians, hex_mirrorings, hex_rotations, m_mirror, m_rotate,
+                         m_translate, rodrigues)
 
 warnings.simplefilter("ignore")
 
@@ -29,7 +30,9 @@ RULE = (
     "with a vertex between 0.9 and 1.1 TOL from the boundary is not judged (counted). The expected set is a brute-force "
     "numpy selection over mesh.vertices' current positions: after the first queries, 0-3 rounds follow in which 1-3 mesh "
     "vertices are moved on their own (move_to / translate, by 1e-3 ... 3 S) and the same finder object is queried again, "
-    "also exactly at the new and at the former position of a moved vertex. Round-shape finder: expected sets come from the case's own axis / radius data "
+    "also exactly at the new and at the former position of a moved vertex. Round-shape finder: a round shape may be mirrored (every loft inverted), rotated or "
+    "translated as a whole by the library before it is added; expected sets come from the case's own axis / radius data, "
+    "mapped by the harness "
     "(end plane, radial distance = R for the rim, < R for the core). The round cell also draws micro-scale models (S = "
     "1e-4 ... 7e-6, radii >= 2.1e-6, closest distinct sketch points 2.4 TOL apart). Merged cell: two cylinders end to end (aligned, "
     "twisted by 45 degrees or by a general angle) joined with mesh.merge_patches in both insertion orders and both "
@@ -122,6 +125,11 @@ def shape_spec(draw, kinds):
             spec["arc_radius"] = draw(st.floats(1.5, 3.0))
         if kind == "chain":
             spec["length_2"] = draw(ratio)
+        # the finished shape is moved as a whole with the library's own methods before it is added to the mesh
+        # (a mirrored shape has every loft inverted); the harness maps its end-face data with R-AFFINE
+        how = draw(st.sampled_from([None, None, "mirror", "mirror", "rotate", "translate"]))
+        if how:
+            spec["moved"] = {"how": how, "vector": draw(_vec), "about": draw(_vec), "angle": draw(st.floats(-3.0, 3.0))}
     return spec
 
 
@@ -177,15 +185,32 @@ def build_mesh(spec):
             shape = cb.Elbow(org, rim, e3, sh["sweep"], arc_center, e2, R2)
             M = m_rotate(sh["sweep"], e2, arc_center)
             faces = [(org, e3, R), (apply(M, org), apply_dir(M, e3), R2)]
-        mesh.add(shape)
-        items.append(shape)
-        ends.append(faces)
+        group, group_faces = [shape], [faces]
         if kind == "chain":
             length_2 = S * sh["length_2"]
-            chained = cb.Cylinder.chain(shape, length_2)
-            mesh.add(chained)
-            items.append(chained)
-            ends.append([(p2, e3, R), (p2 + e3 * length_2, e3, R)])
+            group.append(cb.Cylinder.chain(shape, length_2))
+            group_faces.append([(p2, e3, R), (p2 + e3 * length_2, e3, R)])
+        mv = sh.get("moved")
+        if mv:
+            about = org + S * np.array(mv["about"])
+            direction = _normalised(mv["vector"], [0, 0, 1])
+            if mv["how"] == "mirror":
+                M = m_mirror(direction, about)
+                for item in group:
+                    item.mirror(direction * 2.5, about)
+            elif mv["how"] == "rotate":
+                M = m_rotate(mv["angle"], direction, about)
+                for item in group:
+                    item.rotate(mv["angle"], direction, about)
+            else:
+                M = m_translate(S * np.array(mv["vector"]))
+                for item in group:
+                    item.translate(S * np.array(mv["vector"]))
+            group_faces = [[(apply(M, c), apply_dir(M, n), r) for c, n, r in fs] for fs in group_faces]
+        for item, fs in zip(group, group_faces):
+            mesh.add(item)
+            items.append(item)
+            ends.append(fs)
     mesh.assemble()
     return mesh, items, ends
 
@@ -427,6 +452,7 @@ def check_round(case, ctx: Ctx) -> None:
     mesh, items, ends = build_mesh(spec)
     pos = positions(mesh)
     rounds = [(it, en) for it, en in zip(items_by_spec(spec, items), ends) if en is not None]
+    round_specs = [sh for sh in spec["shapes"] if sh["kind"] != "box" for _ in range(2 if sh["kind"] == "chain" else 1)]
     nt = False
     for qi, q in enumerate(case["queries"]):
         shape, faces = rounds[q["shape"] % len(rounds)]
@@ -458,6 +484,7 @@ def check_round(case, ctx: Ctx) -> None:
             raise Violation("round-empty", "the end face has no vertices at all (harness or assembly problem)", **facts)
         nt = True
         ctx.label("round:" + type(shape).__name__, "round:" + q["which"], "round:end" if q["end"] else "round:start",
+                  "round:moved=" + str((round_specs[q["shape"] % len(rounds)].get("moved") or {}).get("how")),
                   "round:n=%d" % len(want))
     ctx.nt(nt)
     ctx.label("size<1e-4" if S < 1e-4 else ("size<0.05" if S < 0.05 else "size>=0.1"))
